@@ -322,3 +322,56 @@ func VH17c_recycle() {
 	verif.Reach("recycled")
 	sock.Close()
 }
+
+// VH17g_shared_release: a message with 2..3 holders (Clone), every holder
+// releases its reference at the same moment -- or one of them asks for a
+// private copy (MakeUnique) while the others release -- under every schedule in
+// which one goroutine stalls at one synchronisation point until the others are
+// at rest. The buffer goes back to the pool exactly once, and only after the
+// last holder is done with it: the next two messages of that size are two
+// different objects, and a private copy has the original bytes.
+func VH17g_shared_release() {
+	lab := "C17/shared-release"
+	sizes := []int{8, 64, 65}
+	n := sizes[verif.Choice("size", len(sizes))]
+	m := mangos.NewMessage(n)
+	for i := 0; i < 4; i++ {
+		m.Body = append(m.Body, byte(0x40+i))
+	}
+	m.Header = append(m.Header, 0x11, 0x22)
+	holders := 2 + verif.Choice("holders", 2)
+	for i := 1; i < holders; i++ {
+		m.Clone()
+	}
+	unique := verif.Choice("one-makes-unique", 2) == 1
+	var u *mangos.Message
+	var gs []*verif.G
+	for i := 0; i < holders; i++ {
+		if i == 0 && unique {
+			gs = append(gs, verif.Go("unique", func() { u = m.MakeUnique() }))
+			continue
+		}
+		gs = append(gs, verif.Go("free", func() { m.Free() }))
+	}
+	verif.Quiesce()
+	for _, g := range gs {
+		verif.Assert(g.Done(), lab+"/release-blocks")
+	}
+	if unique {
+		verif.Assert(u != nil && len(u.Body) == 4 && len(u.Header) == 2, lab+"/private-copy-shape")
+		if u != nil && len(u.Body) == 4 && len(u.Header) == 2 {
+			verif.Assert(u.Body[0] == 0x40 && u.Body[3] == 0x43 && u.Header[0] == 0x11 && u.Header[1] == 0x22, lab+"/private-copy-does-not-have-the-original-bytes")
+		}
+	}
+	a := mangos.NewMessage(n)
+	b := mangos.NewMessage(n)
+	verif.Assert(a != b, lab+"/pool-hands-one-message-to-two-users")
+	if unique && u != nil {
+		verif.Assert(a != u && b != u, lab+"/pool-hands-out-a-message-its-holder-still-uses")
+		a.Body = append(a.Body, 0xEE, 0xEE, 0xEE, 0xEE)
+		b.Body = append(b.Body, 0xDD, 0xDD, 0xDD, 0xDD)
+		verif.Assert(len(u.Body) == 4 && u.Body[0] == 0x40, lab+"/private-copy-overwritten-by-a-later-message")
+		u.Free()
+	}
+	verif.Reach("shared-release-checked")
+}
